@@ -20,7 +20,7 @@ import (
 func vfC13SectionCfg() vfC13Cfg {
 	aw := map[string]int{"big": connectedPeerMaxAddrs - 2}
 	pw := map[string]int{"pbig": maxPeerProtocols - 1}
-	for _, t := range []string{"pa", "pb", "lo", "ra", "x", "fs", "rs", "sa", "sb"} {
+	for _, t := range []string{"pa", "pb", "lo", "ra", "x", "fs", "rs", "sa", "sb", "us", "d4", "d4s", "df", "dfs"} {
 		aw[t] = 1
 	}
 	for _, t := range []string{"p1", "p2", "idpush", "px"} {
